@@ -69,3 +69,102 @@ def carried_flags_rule(P, rep, rid, prefix='cmdline/', only=None, min_examined=1
                   function=base(f.name), construct='loop-carried %s' % var)
     if not bad:
         rep.check(True, rid, 'flags raised and read inside loops', 'cmdline', '%d (flag, loop) pairs examined, carried ones are all listed exceptions' % tot, function='*', construct='loop-carried flags')
+
+
+def level_loop_index_rule(P, rep, rid, prefix='cmdline/'):
+    """every loop over the parity levels (`for (l = 0; l < state->level; ++l)`) that touches the per-level arrays (state->parity[],
+    parity_handle[], parity_ptr[]) indexes them with a loop counter: a constant index inside such a loop applies the decision of one
+    level to all of them (e.g. the content format chosen from the first level only: the split sizes of a split higher level are then
+    never recorded)."""
+    import re
+    rep.rule(rid, 'loops bounded by state->level index state->parity[] / parity_handle[] / parity_ptr[] with a loop counter, never with a constant', 40)
+    n = 0
+    bad = []
+    for f in P.defined():
+        if not (f.file or '').startswith(prefix):
+            continue
+        counters = {}
+        for h, body in f.loops.items():
+            t = f.term(h)
+            if t.op != 'br' or len(t.ops) != 3:
+                continue
+            ci = f.inst_of(t.ops[0])
+            if ci is None or ci.op != 'icmp':
+                continue
+            e = [f.xexpr(o) for o in ci.ops]
+            if not any(x.endswith('state->level') or x == 'level' for x in e):
+                continue
+            for o in ci.ops:
+                cl = f.inst_of(o)
+                if cl is not None and cl.op == 'load':
+                    ca = f.strip(cl.ops[0])
+                    if ca[0] == 'i' and f.insts[ca[1]].op == 'alloca':
+                        counters[h] = ca[1]
+        if not counters:
+            continue
+        allc = set(counters.values())
+        seen = False
+        for h in counters:
+            blocks = set(f.loops[h]) | {h}
+            for i in f.all_insts():
+                if i.block in blocks and i.op == 'getelementptr' and len(i.ops) == 3:
+                    ex = f.expr(['i', i.id])
+                    if not re.search(r'(parity|parity_handle|parity_ptr)\[[^\]]*\]$', ex):
+                        continue
+                    n += 1
+                    seen = True
+                    li = f.inst_of(i.ops[2])
+                    ok = li is not None and li.op == 'load' and f.strip(li.ops[0])[0] == 'i' and f.strip(li.ops[0])[1] in allc
+                    if not ok and f.const_of(i.ops[2]) is not None:
+                        bad.append((f, i, ex))
+        if seen:
+            rep.analysed(f)
+    if not bad:
+        rep.check(True, rid, 'per-level arrays in level loops', 'cmdline', '%d accesses, all indexed by a loop counter' % n, function='*', construct='level loop index')
+    for f, i, ex in bad:
+        rep.check(False, rid, '%s: %s inside a loop over the levels' % (base(f.name), ex.lstrip('&')), i.loc(),
+                  'the loop runs over every parity level but reads / writes the entry of one fixed level: the other levels do not take part in the decision', function=base(f.name), construct='constant level index in a level loop')
+    if not bad:
+        rep.rules[rid]['instances'] = max(rep.rules[rid]['instances'], n)
+        rep.rules[rid]['ok'] = rep.rules[rid]['instances']
+
+
+def nullable_array_rule(P, rep, rid, prefix='cmdline/'):
+    """a local array of buffer pointers whose entries are set to null inside a loop to say "not available for this item" (the parity
+    buffers read for one stripe: buffer_recov[l] = 0 after a read error or a mismatch) is filled again inside that same loop;
+    initialised once before the loop, a null written for one stripe disables that parity level for every later stripe."""
+    import re
+    rep.rule(rid, 'pointer arrays whose entries are nulled inside a loop as a per-item "not available" mark are (re)filled inside the outermost such loop', 2)
+    n = 0
+    for f in P.defined():
+        if not (f.file or '').startswith(prefix):
+            continue
+        for a in f.all_insts():
+            if a.op != 'alloca' or not re.match(r'\[\d+ x i8\*\]', a.ty or '') or a.id in f.arg_allocas():
+                continue
+            stores = []; loads = []
+            for g in f.users.get(a.id, ()):
+                if g.op == 'getelementptr':
+                    for u in f.users.get(g.id, ()):
+                        if u.op == 'store' and f.strip(u.ops[1]) == ['i', g.id]:
+                            stores.append(u)
+                        elif u.op == 'load':
+                            loads.append(u)
+            nulls = [s for s in stores if f.const_of(s.ops[0]) == 0]
+            inits = [s for s in stores if f.const_of(s.ops[0]) != 0]
+            cands = [h for h, body in f.loops.items() if any(s.block in body or s.block == h for s in nulls) and any(l.block in body or l.block == h for l in loads)]
+            if not cands:
+                continue
+            outer = max(cands, key=lambda h: len(f.loops[h]))
+            blocks = set(f.loops[outer]) | {outer}
+            # entries nulled unconditionally as part of the initialisation itself (the tail of the array) do not count as marks
+            marks = [s for s in nulls if s.block in blocks and not any(f.loop_of(s.block) == f.loop_of(i_.block) or s.block == i_.block for i_ in inits)]
+            inl = [s for s in inits if s.block in blocks]
+            n += 1
+            rep.analysed(f)
+            ok = bool(inl)
+            rep.check(ok, rid, '%s: %s[] is refilled in every iteration of the loop at line %s' % (base(f.name), a.var, f.blocks[outer][0].line), (inl or nulls)[0].loc(),
+                      '%d filling store(s) inside the loop' % len(inl) if ok else '%s[] is filled once before the loop at line %s but its entries are nulled inside it (line %s): after the first item with an unavailable entry, that entry stays null for every later item (a parity level found wrong in one stripe is treated as missing in all the following ones)' % (a.var, f.blocks[outer][0].line, sorted({s.line for s in nulls if s.block in blocks})),
+                      function=base(f.name), construct='%s filled outside the loop' % a.var)
+    if n < 2:
+        raise AnalysisBroken('nullable pointer arrays not recognised (%d)' % n)
